@@ -32,7 +32,7 @@ META = {
     "max_jobs": 16,
 }
 LOG_LINE = re.compile(r"^\d{4}-\d{2}-\d{2} [\d:]+\s+\(\d+\) .*(runner aborted|runner terminated|aborted)", re.M)
-SERVICE_TAGS = {"VSvcTrioDeco": "trio", "VSvcCtrl": "trio", "VSvcDeco": "asyncio", "VSvcThread": "threading", "VSvcPool": "trio", "VSvcEmpty": "trio", "VSvcWaiter": "asyncio"}
+SERVICE_TAGS = {"VSvcAgain": "asyncio", "VSvcTrioDeco": "trio", "VSvcCtrl": "trio", "VSvcDeco": "asyncio", "VSvcThread": "threading", "VSvcPool": "trio", "VSvcEmpty": "trio", "VSvcWaiter": "asyncio"}
 
 
 def plan(tier, seed):
@@ -52,7 +52,7 @@ def gen_pipeline(rnd):
         elif i == 0:
             cls = rnd.choice(["VSvcCtrl", "VSvcCtrl", "VSvcDeco", "VSvcThread", "VDeco", "LinearController"])
         else:
-            cls = rnd.choice(["VSvcDeco", "VSvcThread", "VDeco", "Standardiser", "Logger", "VSvcDeco", "VSvcWaiter", "VSvcTrioDeco"])
+            cls = rnd.choice(["VSvcDeco", "VSvcThread", "VDeco", "Standardiser", "Logger", "VSvcDeco", "VSvcWaiter", "VSvcTrioDeco", "VSvcAgain"])
         kwargs = {}
         label = None
         if cls in SERVICE_TAGS:
@@ -76,7 +76,7 @@ def yaml_text(rnd, elems, logging, extra):
     lines.append("pipeline:")
     for cls, label, kwargs in elems:
         items = ", ".join("%s: %s" % (k, v) for k, v in kwargs.items())
-        if cls in ("VSvcCtrl", "VSvcDeco", "VSvcTrioDeco", "VSvcThread", "VSvcPool", "VSvcEmpty", "VSvcWaiter", "VDeco", "VPool") and rnd.random() < 0.35:
+        if cls in ("VSvcCtrl", "VSvcDeco", "VSvcAgain", "VSvcTrioDeco", "VSvcThread", "VSvcPool", "VSvcEmpty", "VSvcWaiter", "VDeco", "VPool") and rnd.random() < 0.35:
             # the class named directly, through a namespace class, or by an alternative constructor
             name = rnd.choice(["vplug.%s", "vplug.%s", "vplug.Site.%s", "vplug.%s.build"]) % cls
             lines.append("  - {__type__: %s%s}" % (name, (", " + items) if items else ""))
@@ -90,7 +90,7 @@ def yaml_text(rnd, elems, logging, extra):
 
 
 def python_text(rnd, elems):
-    imports = ["from vplug import VSvcCtrl, VSvcDeco, VSvcTrioDeco, VSvcThread, VSvcPool, VSvcEmpty, VSvcWaiter, VDeco, VPool",
+    imports = ["from vplug import VSvcCtrl, VSvcDeco, VSvcAgain, VSvcTrioDeco, VSvcThread, VSvcPool, VSvcEmpty, VSvcWaiter, VDeco, VPool",
                "from cobald.controller.linear import LinearController", "from cobald.decorator.standardiser import Standardiser",
                "from cobald.decorator.logger import Logger"]
     parts = []
@@ -102,6 +102,11 @@ def python_text(rnd, elems):
         body = ["pool = " + tail, "pipeline = " + " >> ".join(parts + ["pool"])]
     else:
         body = ["pipeline = " + " >> ".join(parts + [tail])]
+    if rnd.random() < 0.3:
+        # a configuration that defines a settings class of its own (its creation looks the defining module up)
+        imports = ["from __future__ import annotations", "from dataclasses import dataclass, field"] + imports
+        body = ["", "", "@dataclass", "class Site:", "    name: str = 'verif'", "    tags: list[str] = field(default_factory=list)", "", "",
+                "SITE = Site(tags=['a'])"] + body
     return "\n".join(imports + body) + "\n"
 
 
@@ -257,6 +262,8 @@ def execute(case, result):
         problems.append(("%s: %s\n--- config ---\n%s--- stderr (tail) ---\n%s" % (what, msg, case["text"], run.stderr[-1500:]), mech))
 
     result.count("daemons_%s" % case["kind"])
+    if "@dataclass" in (case.get("text") or ""):
+        result.count("python_configs_defining_a_dataclass")
     result.count("configs_%s" % case["format"])
     if valid:
         if run.timed_out:
@@ -296,6 +303,8 @@ def execute(case, result):
             if flavour[lb] != "threading" and not run.of("cancelled", lb):
                 bad("service %s (%s) was not cancelled on SIGINT" % (lb, flavour[lb]))
             result.count("services_checked_%s" % flavour[lb])
+            if any(e[0] == "VSvcAgain" and e[1] == lb for e in case["elems"]):
+                result.count("services_of_a_class_decorated_twice_checked")
             if any(e[0] == "VSvcEmpty" and e[1] == lb for e in case["elems"]):
                 result.count("falsy_services_checked")
         if run.exit_code != 0:
@@ -338,7 +347,7 @@ def finish(total, tier):
     need = ["daemons_valid", "daemons_invalid", "daemons_failing", "configs_yaml", "configs_python", "services_checked_trio",
             "services_checked_asyncio", "services_checked_threading", "failing_services_after_start", "valid_with_logging_section", "falsy_services_checked", "private_waiter_services_checked", "services_in_large_injected_configs",
             "failing_services_with_base_exception_threading", "defect_unknown_extension_with_byte_compiled_config",
-            "defect_broken_element", "defect_pipeline_not_a_list", "python_configs_named_like_a_module_they_import", "large_configs_of_mostly_trio_services"]
+            "defect_broken_element", "defect_pipeline_not_a_list", "python_configs_named_like_a_module_they_import", "python_configs_defining_a_dataclass", "services_of_a_class_decorated_twice_checked", "large_configs_of_mostly_trio_services"]
     for name in need:
         if not total.counters.get(name) and not total.violations:
             total.inconc("monitor never observed: " + name)
